@@ -38,7 +38,8 @@ def generate(rng, tier):
         sub = tg.tree(rng.choice([1, 2, 3]))
         msgs = [treegen.gen_message(rng, sub, bad=0.05) for _ in range(rng.choice([1, 1, 2]))]
         out.append(treegen.case_line("v", sub, tg.scripts, msgs))
-    return out
+    import stress
+    return out + stress.tree_stream(tier)
 
 
 def harness_line(c): return c
